@@ -79,8 +79,55 @@ func diffNestedFlat(sc *scen.Scenario) (fs []scen.Finding, nested, flat []scen.O
 	return
 }
 
+// runC10Retries: an embedded flow with a retry budget on its own BaseNode is retried like a node (its path is run
+// again from its start); decided against the reference interpreter, which models exactly that.
+func runC10Retries(c *Cfg) {
+	r := c.Rep
+	n := c.Pick(3000, 60000)
+	parallel(c, n, func(i int) {
+		rg := c.Rng("c10retry", i)
+		var sc *scen.Scenario
+		for try := 0; try < 20; try++ {
+			sc = scen.GenFlowScenario(rg, scen.GenOpts{MaxNodes: 6, MaxActions: 3, MaxDepth: 3, Failures: true, MaxVisits: 4})
+			if sc.MaxNesting() >= 2 {
+				break
+			}
+		}
+		sc.Rewire = nil
+		any := false
+		for id := range sc.Nodes {
+			if sc.Nodes[id].Kind == scen.KFlow && id != sc.Root && rg.IntN(2) == 0 {
+				sc.Nodes[id].Flow.Retries = 2 + rg.IntN(2)
+				any = true
+			}
+		}
+		if !any {
+			return
+		}
+		// failures inside the hierarchy so that retries have something to do
+		for k := 0; k < 1+rg.IntN(2); k++ {
+			failSomewhere(rg.IntN(1<<30), sc)
+		}
+		outs, mrs := runScenario(sc)
+		r.EvalN(int64(len(outs)))
+		for k := range outs {
+			for _, f := range scen.Judge(sc, &mrs[k], &outs[k]) {
+				if f.Prop == "C03" && (f.Key == "path" || f.Key == "store-log" || f.Key == "run-failed" || f.Key == "runaway") {
+					r.Violate("C10", "C10:retried-inner-flow:"+f.Key, fmt.Sprintf("run %d: an embedded flow with a retry budget on its BaseNode must be retried like a node: %s", k, f.Detail), ScenCase{"flow-retries", sc})
+				}
+				if f.Prop == "C10" {
+					r.Violate("C10", "C10:"+f.Key, f.Detail, ScenCase{"flow-retries", sc})
+				}
+			}
+		}
+		r.Count("flow_retries.hierarchies", 1)
+		r.Nontrivial("fr:" + scenSig(sc))
+	})
+}
+
 func runC10(c *Cfg) {
 	r := c.Rep
+	defer runC10Retries(c)
 	nr := c.Pick(20000, 1000000)
 	parallel(c, nr, func(i int) {
 		rg := c.Rng("c10", i)
@@ -128,6 +175,19 @@ func replayC10(c *Cfg, spec json.RawMessage) {
 	var cs ScenCase
 	if err := json.Unmarshal(spec, &cs); err != nil || cs.Scenario == nil {
 		fmt.Println("cannot parse case:", err)
+		return
+	}
+	if cs.Family == "flow-retries" {
+		outs, mrs := runScenario(cs.Scenario)
+		for k := range outs {
+			fmt.Printf("--- run %d\nmodel : %v action=%q err=%q\nnested: %v action=%q err=%q\n", k, mrs[k].Keys, mrs[k].Action, mrs[k].ErrID, keysOf(outs[k].Events), outs[k].Action, outs[k].ErrText)
+			for _, f := range scen.Judge(cs.Scenario, &mrs[k], &outs[k]) {
+				if f.Prop == "C03" || f.Prop == "C10" {
+					fmt.Printf(" * finding %s %s: %s\n", f.Prop, f.Key, f.Detail)
+					c.Rep.Violate("C10", "C10:retried-inner-flow:"+f.Key, f.Detail, cs)
+				}
+			}
+		}
 		return
 	}
 	fs, nested, flat, mrs, _ := diffNestedFlat(cs.Scenario)
